@@ -9,6 +9,7 @@ const hooksAvailable = true
 
 var (
 	hkResolve    = frugal.VerifResolve
+	hkDesc       = frugal.VerifDesc
 	hkSpan       = frugal.VerifSpan
 	hkBitset     = frugal.VerifBitset
 	hkDescMap    = frugal.VerifDescMap
